@@ -27,6 +27,10 @@ Drop(d, k)    == [x \in (DOMAIN d) \ {k} |-> d[x]]
 Upd(d, s)     == [x \in (DOMAIN d) \cup (DOMAIN s) |->
                     IF x \in DOMAIN s THEN s[x] ELSE d[x]]
 EmptyDict     == <<>>
+(* dict literals are built as FUNCTIONS, never as TLA+ record literals: TLC
+   refuses to compare a record literal with the empty function <<>> *)
+D1(k, v)              == [x \in {k} |-> v]
+D2(k1, v1, k2, v2)    == [x \in {k1, k2} |-> IF x = k1 THEN v1 ELSE v2]
 (* d[new] = d[old]; del d[old]   (AppMutator._rename_dict_key) *)
 RenKey(d, old, new) ==
     IF old = new THEN Drop(d, old)
@@ -192,6 +196,22 @@ ModelEq(a, b) == /\ a.table = b.table
 
 SigEq(a, b) == /\ DOMAIN a = DOMAIN b
                /\ \A mn \in DOMAIN a : ModelEq(a[mn], b[mn])
+
+(* Diff(a, b).is_empty() as ModelSignature.diff / FieldSignature.diff compute it:
+   attributes compare through their defaults (an omitted attribute equals an
+   explicit default), index lists compare as LISTS, unique_together through
+   has_unique_together_changed *)
+FieldDiffEmpty(x, y) ==
+    /\ \A a \in (DOMAIN x.attrs) \cup (DOMAIN y.attrs) : AttrValue(x, a) = AttrValue(y, a)
+    /\ (x.ftype = y.ftype \/ DbType(x.ftype, x.attrs)[1] = DbType(y.ftype, y.attrs)[1])
+    /\ x.rel = y.rel
+ModelDiffEmpty(a, b) ==
+    /\ DOMAIN a.fields = DOMAIN b.fields
+    /\ \A fn \in DOMAIN a.fields : FieldDiffEmpty(a.fields[fn], b.fields[fn])
+    /\ ~UTChanged(a, b)
+    /\ a.idx = b.idx
+DiffEmpty(a, b) == /\ DOMAIN a = DOMAIN b
+                   /\ \A mn \in DOMAIN a : ModelDiffEmpty(a[mn], b[mn])
 
 (* same pre-existing row data in every surviving column (ghost component) *)
 DataEq(a, b) == /\ DOMAIN a = DOMAIN b
